@@ -89,6 +89,13 @@ impl WalIndex {
         #[cfg(walrus_verif)]
         crate::wal::verif::io_event_rename(&tmp_path, &self.path);
         fs::rename(&tmp_path, &self.path)?;
+        // The rename is only durable once the directory is synced; without this a power loss
+        // brings back the previous index, i.e. forgets read positions that were acknowledged.
+        if let Some(parent) = std::path::Path::new(&self.path).parent() {
+            #[cfg(walrus_verif)]
+            crate::wal::verif::io_event("dirsync", &parent.to_string_lossy(), 0, 0);
+            fs::File::open(parent)?.sync_all()?;
+        }
         Ok(())
     }
 }
